@@ -56,6 +56,16 @@ Definition tau2_transition (a b r : R) (beta : list R) (K : list (list R)) (g : 
 Definition joint_tau2 (lgam : R -> R) (a b q r lpd rest t : R) : R :=
   ig_logpdf lgam a b t + mvn_pen_logpdf q r lpd t + rest.
 
+(* joint_tau2 t1 - joint_tau2 t0 in closed form (no ln Gamma, no lpd, no rest): what the
+   correspondence compares with differences of the real model's log_prob along tau2
+   (GibbsProofs.cond_diff_spec proves it is that difference) *)
+Definition cond_diff (a b q r t0 t1 : R) : R :=
+  - (a + 1) * (ln t1 - ln t0) - b * (/ t1 - / t0)
+  + / 2 * (- q * (/ t1 - / t0) - r * (ln t1 - ln t0)).
+
+(* the same difference for an inverse-gamma log-density with parameters (a', b') *)
+Definition ig_diff (a' b' t0 t1 : R) : R := - (a' + 1) * (ln t1 - ln t0) - b' * (/ t1 - / t0).
+
 (* ------------------------------------------------------------------------------------------
    finite_discrete_gibbs_kernel.transition_fn, over an abstract model state S, value type V,
    assignment `set_var s o` (model.vars[name].value = o; model.update("_model_log_prob")) and
